@@ -122,7 +122,13 @@ MonStep(M, s, r, panic) ==
     [] s.a = "poll" -> MonYield(M, s.q, r)
     [] s.a = "expire" -> IF r.k = "ok" THEN MonYield(M, s.q, r.pev) ELSE M
     [] s.a = "open" ->
-         IF r.k # "ok" THEN M
+         IF r.k # "ok" THEN
+              \* usability probe (only issued by the harness when ONE fresh connection to the peer is up, the
+              \* protocol has consumed everything and nothing was downgraded since): "while a peer is
+              \* connected a request to open a substream is accepted"
+              IF "probe" \in DOMAIN s /\ s.probe /\ InScope(M, s.p)
+                THEN Fail(M, "open_substream refused although a fresh connection to the peer is up")
+                ELSE M
          ELSE IF r.id \in M.ids THEN Fail(M, "substream identifier reused")
          ELSE [M EXCEPT !.ids = @ \cup {r.id},
                         !.req = (r.id :> [q |-> s.q, p |-> s.p, st |-> "open", rep |-> "none", at |-> 0]) @@ @]
